@@ -121,6 +121,23 @@ func serverFacts(p *pkg, f *facts) {
 	}
 	emit("commitSyncs", "NFSProcedureHandler.handleCommit", ".Sync()", "OpenFile(")
 	emit("writeRepliesFileSync", "NFSProcedureHandler.handleWrite", "xdrEncodeUint32(&buf, 2)", "writeVerf")
+	// the write verifier is written exactly once, in NewServer, from the wall clock
+	{
+		sites := 0
+		inNew := false
+		for name, fn := range p.funcs {
+			if fn.Body == nil {
+				continue
+			}
+			src := squeeze(exprString(p.fset, fn.Body))
+			n := strings.Count(src, "PutUint64(s.writeVerf[:]") + strings.Count(src, ".writeVerf=")
+			sites += n
+			if n > 0 && name == "NewServer" && strings.Contains(src, "time.Now().UnixNano()") {
+				inNew = true
+			}
+		}
+		f.boolean("writeVerfSetOnceAtCreation", sites == 1 && inNew, true, "")
+	}
 	// 5. C23: FSINFO derives its transfer sizes from the configuration and the record limit
 	emit("fsinfoUsesTransferSize", "NFSProcedureHandler.handleFsinfo", "TransferSize", "DefaultMaxRecordSize")
 	// 6. C25: the three size-changing paths consult MaxFileSize
